@@ -58,14 +58,14 @@ def s_ring(ctx, ids):
         st = State()
         rp = ex.alloc(st, P)
         ex.call(st, CP + 'double', [rp])
-        o = outs(ex.load(st, rp))
+        o = o_dbl = outs(ex.load(st, rp))
         ids.ident('%s.double: identity stays put' % gname, o, [x1, y1, z1], 'group-law', cond=isz(z1))
         ids.ident('%s.double: tangent law (a=0)' % gname, o, tangent(x1, y1, z1), 'group-law', cond=z3.Not(isz(z1)))
         # ---- add_assign
         st = State()
         rp, rq = ex.alloc(st, P), ex.alloc(st, Q)
         ex.call(st, CP + 'add_assign', [rp, rq])
-        o = outs(ex.load(st, rp))
+        o = o_add = outs(ex.load(st, rp))
         cs, (U1, U2, S1, S2) = chord(x1, y1, z1, x2, y2, z2)
         nz = z3.And(z3.Not(isz(z1)), z3.Not(isz(z2)))
         same = z3.And(isz(U1 - U2), isz(S1 - S2))
@@ -85,6 +85,8 @@ def s_ring(ctx, ids):
         ids.ident('%s.add_assign_mixed: P + P = tangent law' % gname, o, tangent(x1, y1, z1), 'group-law',
                   cond=z3.And(z3.Not(inf), z3.Not(isz(z1)), samem))
         ids.ident('%s.add_assign_mixed: chord law' % gname, o, cm, 'group-law', cond=z3.And(z3.Not(inf), z3.Not(isz(z1)), z3.Not(samem)))
+        if gname == 'G1':
+            validate_translator(ctx, D, {'g1_double': (o_dbl, 3), 'g1_add': (o_add, 6), 'g1_add_mixed': (o, 6)})
         # ---- negate (projective and affine)
         st = State()
         rp = ex.alloc(st, P)
@@ -159,6 +161,54 @@ def s_ring(ctx, ids):
     chk.assumptions += ['Fq / Fq2 are commutative rings; inverse() is Some(t), t*n = 1, exactly when n != 0 (C08, C09)',
                         'field-specific step used outside the solver: in a field, U1 = U2 and S1 != S2 give H = 0 hence Z3 = 2 Z1 Z2 H = 0 '
                         '(P + (-P) = O); and (X,Y,Z) ~ (l^2 X, l^3 Y, l Z) represent the same affine point (K-toy decides both on real fields)']
+
+
+def validate_translator(ctx, D, ops):
+    """DESIGN 2.5: the symbolic outputs of double / add_assign / add_assign_mixed (G1, from MIR) are evaluated modulo q at concrete
+    Jacobian triples -- generic ones and one per branch (O + Q, P + O, equal points under different Z, opposite points) -- and compared
+    with the raw output coordinates of the NATIVE release build on the same triples.  A disagreement means the encoder or a leaf
+    model is wrong: exit 2, never a pass or a violation."""
+    import random
+    from mirsym import load, ref
+    q = ref.Q
+    rnd = random.Random(ctx.seed * 65537 + 1)
+    val = {symv.decl().name(): ref.from_mont(n) for key, (symv, n) in D.opaque.items()}
+
+    def rv():
+        return rnd.randrange(1, q)
+    triples = []
+    for _ in range(3):
+        triples.append(([rv(), rv(), rv()], [rv(), rv(), rv()]))
+    x, y, z, l = rv(), rv(), rv(), rv()
+    triples.append(([x, y, 0], [rv(), rv(), rv()]))                                            # O + Q
+    triples.append(([rv(), rv(), rv()], [x, y, 0]))                                            # P + O
+    triples.append(([x, y, z], [x * l * l % q, y * pow(l, 3, q) % q, z * l % q]))              # same point, different representative
+    triples.append(([x, y, z], [x * l * l % q, -y * pow(l, 3, q) % q, z * l % q]))             # opposite points
+    triples.append(([x, y, 1], [x, y, 1]))
+    cases = []
+    for op, (outs_, nargs) in ops.items():
+        for (p, q_) in triples:
+            for infv in ((False, True) if op == 'g1_add_mixed' else (False,)):
+                env = dict(val)
+                env.update({'X1': p[0], 'Y1': p[1], 'Z1': p[2], 'X2': q_[0], 'Y2': q_[1], 'Z2': q_[2], 'inf2': infv})
+                want = ' '.join('%096x' % C.eval_mod(C.zi(t), env, q) for t in outs_)
+                if op == 'g1_double':
+                    cmd = 'g1_double %x %x %x' % tuple(p)
+                elif op == 'g1_add':
+                    cmd = 'g1_add %x %x %x %x %x %x' % tuple(p + q_)
+                else:
+                    cmd = 'g1_add_mixed %x %x %x %x %x %d' % (p[0], p[1], p[2], q_[0], q_[1], 1 if infv else 0)
+                cases.append((cmd, want))
+    n = load.Native('release')
+    try:
+        got = n.run([c for c, _ in cases])
+    finally:
+        n.close()
+    bad = [(c[:60], o[:40], w[:40]) for (c, w), o in zip(cases, got) if o.strip() != w]
+    ctx.chk.extra['translator_validation'] = {'cases': len(cases), 'disagreements': len(bad),
+                                              'what': 'symbolic G1 double/add_assign/add_assign_mixed outputs (from MIR) evaluated mod q vs raw Jacobian output of the native release build, incl. one triple per branch'}
+    if bad:
+        ctx.inconclusive('translator validation: symbolic execution disagrees with the native code on %d of %d concrete cases, e.g. %r' % (len(bad), len(cases), bad[0]))
 
 
 def run(ctx):
